@@ -48,7 +48,7 @@ def quick_slice(progs):
     k = 0
     for p in progs:
         n = p["name"]
-        product = n.startswith(("exit/", "assign/", "call/", "call_in_try/", "fn/", "update/")) or p["origin"] == "extracted"
+        product = n.startswith(("exit/", "assign/", "call/", "call_in_try/", "fn/", "update/")) or (n.startswith("exitscope/") and not n.startswith("exitscope/function/")) or p["origin"] == "extracted"
         if not product:
             out.append(p)
         else:
